@@ -27,7 +27,7 @@ func SplitIndependent(id string) bool {
 		"K-read-seq/v0", "K-read-seq/v1", "K-read-seq/v2",
 		"K-read-loop/v0", "K-read-loop/v1", "K-read-loop/v2", "K-read-loop/v3", "K-read-loop/v4",
 		"K-write-loop/v0", "K-write-loop/v1",
-		"K-nested-coro/v0", "K-nested-coro/v1", "K-nested-coro/v2", "K-nested-coro/v3",
+		"K-nested-coro/v0", "K-nested-coro/v1", "K-nested-coro/v2", "K-nested-coro/v3", "K-nested-coro/v4", "K-nested-coro/v5",
 		"K-peek-skip/v0":
 		return true
 	}
@@ -73,10 +73,29 @@ func (l *liveGen) simple(ind string) string {
 		return fmt.Sprintf("%sthis.%s = (this.%s ~mod* 33) ~mod+ %s\n", ind, l.acc, l.acc, l.x())
 	case k < 9 && l.hasDst:
 		return fmt.Sprintf("%sargs.dst.write_u8?(a: (%s & 0xFF) as base.u8)\n", ind, l.x())
-	case k < 9:
-		return fmt.Sprintf("%sthis.%s?(src: args.src)\n", ind, l.sub)
 	}
-	return fmt.Sprintf("%sthis.%s?(src: args.src)\n", ind, l.sub)
+	return l.nested(ind)
+}
+
+// nested emits a call of the private coroutine: its numeric argument is a
+// bare local, a compound expression over locals (which must be saved across
+// the callee's suspensions just the same) or a constant; the callee uses the
+// argument after its own suspension points.
+func (l *liveGen) nested(ind string) string {
+	var arg string
+	switch l.r.Intn(5) {
+	case 0:
+		arg = l.x()
+	case 1:
+		arg = fmt.Sprintf("%s ~mod+ %d", l.x(), 1+l.r.Intn(9))
+	case 2:
+		arg = fmt.Sprintf("(%s ~mod* 3) ^ %s", l.x(), l.x())
+	case 3:
+		arg = fmt.Sprintf("this.%s ~mod+ %s", l.acc, l.x())
+	default:
+		arg = fmt.Sprint(l.r.Intn(1000))
+	}
+	return fmt.Sprintf("%sthis.%s?(src: args.src, k: %s)\n", ind, l.sub, arg)
 }
 
 // block emits n statements at the given depth; loop is the label of the
@@ -135,9 +154,13 @@ func famLive(g *genctx, v int) *scen {
 		decl += fmt.Sprintf("    var x%d : base.u32\n", i)
 	}
 	body := l.read("    ") + l.block("    ", 3+g.r.Intn(6), 0, "")
+	// only some locals are read again at the end: the others are dead after
+	// their last use, which may be inside a nested call's argument
 	mix := "this." + l.acc
 	for i := 0; i < l.nLocals; i++ {
-		mix = fmt.Sprintf("((%s ~mod* 131) ~mod+ x%d)", mix, i)
+		if g.r.Intn(2) == 0 {
+			mix = fmt.Sprintf("((%s ~mod* 131) ~mod+ x%d)", mix, i)
+		}
 	}
 	body += fmt.Sprintf("    this.%s = %s\n    this.%s ~mod+= 1\n", l.acc, mix, g.n("done"))
 	sig := "src: base.io_reader"
@@ -147,7 +170,7 @@ func famLive(g *genctx, v int) *scen {
 	s := &scen{coro: true, features: []string{"coroutine", "liveness", "labelled-jumps"}}
 	s.fields = []string{l.acc + " : base.u32", g.n("done") + " : base.u32", g.n("subsum") + " : base.u32"}
 	s.methods = []string{
-		fmt.Sprintf("pri func obj.%s?(src: base.io_reader) {\n    var a : base.u32\n    var b : base.u32\n    a = args.src.read_u8_as_u32?()\n    b = args.src.read_u16le_as_u32?()\n    this.%s = (this.%s ~mod* 7) ~mod+ (a ~mod+ b)\n}", l.sub, g.n("subsum"), g.n("subsum")),
+		fmt.Sprintf("pri func obj.%s?(src: base.io_reader, k: base.u32) {\n    var a : base.u32\n    var b : base.u32\n    a = args.src.read_u8_as_u32?()\n    this.%s = (this.%s ~mod* 7) ~mod+ args.k\n    b = args.src.read_u16le_as_u32?()\n    this.%s = (this.%s ~mod* 7) ~mod+ ((a ~mod+ b) ^ args.k)\n}", l.sub, g.n("subsum"), g.n("subsum"), g.n("subsum"), g.n("subsum")),
 		fmt.Sprintf("pub func obj.%s?(%s) {\n%s\n%s}", m, sig, decl, body),
 		fmt.Sprintf("pub func obj.%s() base.u32 {\n    return this.%s\n}", g.n("getacc"), l.acc),
 		fmt.Sprintf("pub func obj.%s() base.u32 {\n    return this.%s\n}", g.n("getdone"), g.n("done")),
